@@ -197,3 +197,7 @@ func amountClass(v *big.Int) string {
 		return "<2^256"
 	}
 }
+
+// Nobody: a well-formed account address that holds no role and no funds (used to build messages that decode
+// fine but are refused when executed).
+func Nobody() string { return Bech(Structured32(0x99)[:20]) }
